@@ -609,6 +609,14 @@ def op_stock(st, op, info):
             arr = StockArray(dims=wrong, values=int_values(op.get("vseed", 0), tuple(len(d.items) for d in wrong)))
             info.must_raise = "stock-dims-rejected"
             st.fault("stock_array_other_dims")
+        elif how == "twin_dims" and len(order) >= 2:
+            dl_ = list(ds)
+            k_ = 1 + op.get("vseed", 0) % (len(dl_) - 1)
+            dl_[k_] = _twin_of(dl_[k_], bool(op.get("vseed", 0) % 2))
+            tw = DimensionSet(dim_list=dl_)
+            arr = StockArray(dims=tw, values=int_values(op.get("vseed", 0), tuple(len(d.items) for d in tw)))
+            info.must_raise = "stock-dims-rejected"
+            st.fault("stock_array_same_letters_other_items")
         elif how == "fewer_dims" and len(order) >= 2:
             fewer = DimensionSet(dim_list=[st.D[i] for i in order[:-1]])
             arr = StockArray(dims=fewer, values=int_values(op.get("vseed", 0), tuple(len(d.items) for d in fewer)))
@@ -628,6 +636,14 @@ def op_stock(st, op, info):
             kw["lifetime_model"] = FixedLifetime
         elif lt == "instance":
             kw["lifetime_model"] = NormalLifetime(dims=ds, mean=3.0, std=1.0)
+        elif lt == "instance_twin" and len(ds.dim_list) >= 2:
+            # same letters as the stock, but one dimension of the model has another number of items
+            dl_ = list(ds)
+            k_ = 1 + op.get("vseed", 0) % (len(dl_) - 1)
+            dl_[k_] = _twin_of(dl_[k_], True)
+            kw["lifetime_model"] = FixedLifetime(dims=DimensionSet(dim_list=dl_), mean=2.0)
+            info.must_raise = info.must_raise or "stock-dims-rejected"
+            st.fault("lifetime_model_same_letters_other_items")
         else:  # instance over other dims
             cands = [i for i in range(len(st.D)) if st.LET[i] not in [st.LET[j] for j in order]]
             lds = DimensionSet(dim_list=[st.D[tidx[0]]] + ([st.D[cands[0]]] if cands else []))
@@ -638,6 +654,13 @@ def op_stock(st, op, info):
     r = call(st, op, lambda: cls(**kw), info)
     if info.outcome == "ret":
         info.stock = r
+
+
+def _twin_of(d, more):
+    """a dimension with the letter of `d` but another name and item count (an object from another model)"""
+    items = list(d.items)
+    items = items + [(max(items) + 1000) if all(isinstance(x, int) for x in items) else "foreign_item"] if more or len(items) == 1 else items[:1]
+    return Dimension(name=d.name + "Foreign", letter=d.letter, items=items, dtype=d.dtype)
 
 
 def op_lifetime(st, op, info):
@@ -669,14 +692,29 @@ def op_lifetime(st, op, info):
             if any(l not in letters for l in a.dims.letters):
                 info.must_raise = "lifetime-prm-rejected"
                 st.fault("lifetime_prm_other_dims")
+        elif how["how"] == "twin_same_letters" and len(ds.dim_list) >= 2:
+            # exactly the model's letters in the model's order - but one dimension has another number of items
+            k_ = 1 + how.get("pos", 0) % (len(ds.dim_list) - 1)
+            dl_ = list(ds)
+            dl_[k_] = _twin_of(dl_[k_], how.get("more", True))
+            pd_ = DimensionSet(dim_list=dl_)
+            arr = FlodymArray(dims=pd_, values=int_values(how.get("vseed", 0), tuple(len(d.items) for d in pd_), 1, 6))
+            prms[name] = arr
+            info.inputs.append(arr)
+            info.must_raise = "lifetime-prm-rejected"
+            st.fault("lifetime_prm_same_letters_other_items")
+            continue
         else:
-            pd_ = st.dimset(how["dims"])
+            pd_ = st.dimset(how.get("dims", []))
             arr = FlodymArray(dims=pd_, values=int_values(how.get("vseed", 0), tuple(len(d.items) for d in pd_), 1, 6))
             prms[name] = arr
             info.inputs.append(arr)
             if any(l not in letters for l in pd_.letters):
                 info.must_raise = "lifetime-prm-rejected"
                 st.fault("lifetime_prm_other_dims")
+            elif any(len(d.items) != len(ds[d.letter].items) for d in pd_):
+                info.must_raise = "lifetime-prm-rejected"
+                st.fault("lifetime_prm_same_letters_other_items")
     if op["via"] == "ctor":
         call(st, op, lambda: cls(dims=ds, **prms), info)
     else:
